@@ -360,7 +360,11 @@ func runCheck(cmd, prop, tier, repo, root, only string, keep, verbose, writeExpe
 			if tier == "thorough" && best.Result == "unsat" {
 				// thorough: the discharged query is run to the end on every solver; a solver answering `sat`
 				// where another proved `unsat` is a disagreement (unknown/timeout answers are not)
-				_, all2 := discharge(provedQuery, smtDir, o.Name+"-all", timeout, true)
+				// (the query with every assumption: each staged variant that was discharged is this query with
+				// assumptions left out, so its `unsat` carries over, whereas a `sat` of a pruned or focused
+				// variant would mean nothing)
+				_ = provedQuery
+				_, all2 := discharge(qFull, smtDir, o.Name+"-all", timeout, true)
 				allr = append(allr, all2...)
 			}
 			rep := &OblReport{Name: o.Name, Kind: o.Kind, Result: best.Result, Solver: best.Solver, Ms: best.Ms, Pos: o.Pos, Clause: o.Src, All: allr, obl: o, QueryKB: len(q) / 1024}
